@@ -113,9 +113,11 @@ Definition parse_value (s : str) : res (str * str * str) :=
   let n := trailing_backslashes rest in
   if Nat.even n then Ok (rest, [], [])
   else
-    let backslash := (length rest - n)%nat in
-    let continuation := skipn backslash rest in
-    let value_and_space := firstn backslash rest in
+    (* only the last backslash continues the line; the backslashes before it are
+       escaped backslashes that belong to the value: rest[end-1:], rest[:end-1] *)
+    let last := (length rest - 1)%nat in
+    let continuation := skipn last rest in
+    let value_and_space := firstn last rest in
     let value := rtrim_hspace value_and_space in
     let space := skipn (length value) value_and_space in
     Ok (value, space, continuation).
